@@ -3,6 +3,9 @@ from __future__ import annotations
 
 import ast
 import asyncio
+import datetime
+import decimal
+import fractions
 import itertools
 import math
 
@@ -23,13 +26,15 @@ META = {
     "to the empty string ({{ '' }}, {{ \"\" ~ \"\" }}, {{ ''|string }}) one piece less deep, and every menu value next to "
     "such a piece (two nodes -> text, never identity); the extended alphabet is also rendered with finalize= (plain and "
     "@pass_context, repr-quoting str values: applies to expression values only, not to template text); every container "
-    "result is mutated and the render repeated (must give a fresh, unchanged literal).  Constant family: ~600 single-expression templates "
+    "result is mutated and the render repeated (must give a fresh, unchanged literal).  Block family: in-place block, "
+    "self.b(), super() over one and two inheritance levels as the only output node x the value menu; filter blocks whose "
+    "custom filter returns Decimal/Fraction/date/object/list/nan... as the only output node: identity.  Constant family: ~600 single-expression templates "
     "without variables whose value holds classes reachable from constants (alone, dict values/keys, lists, tuples, "
     "nested one level) must return the value built in Python, type-exactly.  Every case runs in a sync NativeEnvironment (render), an "
     "async-enabled one (render) and an async-enabled one (render_async under asyncio.run).",
     "note": "Reference = the docstring of native_concat / NativeTemplate.render and docs/nativetypes.rst; leading "
     "space/tab is not stripped before parsing and an empty template gives None (both calibrated from the tree).  "
-    "Resource-limit inputs (thousands of nested operators -> RecursionError inside ast.literal_eval) are out of scope.",
+    "One resource-limit input (3000 unary minus signs -> RecursionError inside ast.literal_eval) is included as a value.",
     "design_ref": "DESIGN.md §4 C34, §3 R-native",
 }
 
@@ -64,7 +69,9 @@ def literal_or_text(text):
         return text
     try:
         return ast.literal_eval(text)
-    except (ValueError, SyntaxError, MemoryError):
+    except (ValueError, SyntaxError, MemoryError, TypeError, RecursionError):
+        # "Otherwise, the string is returned": also when evaluating the literal fails with TypeError (unhashable dict key
+        # or set element) or RecursionError (operator nesting beyond the interpreter's limit) - never an exception
         return text
 
 
@@ -107,16 +114,30 @@ def finalizer(name):
 
 FINALIZERS = [None, "plain", "pass_context"]
 
+# results of the custom filter `give`: objects that do not survive str() + literal_eval (or would come back as a copy)
+GIVE = {"decimal": decimal.Decimal("1.5"), "fraction": fractions.Fraction(1, 3), "plain": Plain("7"),
+        "list": [1, 2], "dict": {"a": 1}, "int": 2**70, "nan": float("nan"), "date": datetime.date(2020, 1, 2),
+        "none": None, "bytes": b"x", "str-literal": "[1, 2]", "str-text": "plain text"}
 
-def render(mode, src, ctx, fin=None):
+
+def give(body, key):
+    return GIVE[key]
+
+
+def render(mode, src, ctx, fin=None, templates=None):
+    """templates: dict for a DictLoader; src is then the name of the template to render."""
+    from jinja2 import DictLoader
     from jinja2.nativetypes import NativeEnvironment
 
     kw = {} if fin is None else {"finalize": finalizer(fin)}
+    if templates is not None:
+        kw["loader"] = DictLoader(templates)
     try:
+        env = NativeEnvironment(enable_async=mode != "sync-render", **kw)
+        env.filters["give"] = give
+        t = env.from_string(src) if templates is None else env.get_template(src)
         if mode == "sync-render":
-            return ("val", NativeEnvironment(**kw).from_string(src).render(**ctx))
-        env = NativeEnvironment(enable_async=True, **kw)
-        t = env.from_string(src)
+            return ("val", t.render(**ctx))
         if mode == "async-render":
             return ("val", t.render(**ctx))
         return ("val", asyncio.run(t.render_async(**ctx)))
@@ -132,7 +153,9 @@ SCRIPT = (
     "fin = args[3] if len(args) > 3 else None\n"
     "ctx = eval(ctx_expr, c34._ns())\n"
     "print('mode    :', mode, ' finalize:', fin)\nprint('source  :', repr(src))\nprint('context :', ctx_expr)\n"
-    "out = c34.render(mode, src, ctx, fin)\n"
+    "templates = args[5] if len(args) > 5 else None\n"
+    "if templates:\n    print('templates:', templates)\n"
+    "out = c34.render(mode, src, ctx, fin, templates)\n"
     "print('result  :', out, type(out[1]).__name__ if out[0] == 'val' else '')\n"
     "if len(args) > 4:  # second render after the caller changed the first result\n"
     "    c34.mutate(out[1])\n"
@@ -171,6 +194,9 @@ STRING_VALUES = [
     "1 # comment", "# only a comment", "...", "Ellipsis", "1;2", "1\n2", "(\n1\n)", "[1,\n2]", "lambda: 1", "set()",
     "{1: {2: [3, (4, None)]}}", "'\\n'", "'\\x41'", "'''a'''", "\x001", "1\x00", "\ud800", "'\ud800'", "é",
     "'é'", "１", "nan", "inf", "-inf", "1e", "0x", "[1, 2, 3][0]", "(" * 300 + "1" + ")" * 300,
+    # literal syntax whose evaluation fails: unhashable dict key / set element (TypeError), operator nesting beyond the
+    # interpreter's recursion limit (RecursionError) - "otherwise, the string is returned"
+    "{[1]: 2}", "{ {1: 2}: 3}", "{[1]}", "{1: {[2]: 3}}", "[{ {}: 1}]", "-" * 3000 + "1",
 ]
 
 VALUE_EXPRS = [
@@ -197,6 +223,20 @@ def _ns():
     return ns
 
 
+def _exc_sig(mode, out, text):
+    """a render that raises because evaluating the literal text raised (instead of falling back to the text) gets one
+    signature per exception class, whatever the mode"""
+    if isinstance(text, str) and out[1] in ("TypeError", "RecursionError"):
+        try:
+            ast.literal_eval(text)
+        except (TypeError, RecursionError) as e:
+            if type(e).__name__ == out[1]:
+                return "C34/literal-eval-raises/" + out[1]
+        except Exception:  # noqa: BLE001
+            pass
+    return f"C34/{mode}-{out[1].lower()}"
+
+
 def single_shard(arg):
     kind, items = arg
     ns = _ns()
@@ -218,8 +258,8 @@ def single_shard(arg):
                 out = render(mode, shape, ctx)
                 if out[0] == "exc":
                     p.sig((mode, "exc", out[1]))
-                    p.violation(f"C34/{mode}-{out[1].lower()}", {
-                        "msg": f"{mode} {shape!r} with {ctx_expr}: raised {out[1]}: {out[2]}",
+                    p.violation(_exc_sig(mode, out, value), {
+                        "msg": f"{mode} {shape!r} with {ctx_expr[:80]}: raised {out[1]}: {out[2]}",
                         "script": SCRIPT % ((mode, shape, ctx_expr),)})
                     continue
                 got = out[1]
@@ -267,8 +307,8 @@ def single_shard(arg):
                     out = render(mode, shape, ctx)
                     if out[0] == "exc":
                         p.sig((mode, "exc", out[1]))
-                        p.violation(f"C34/{mode}-{out[1].lower()}", {
-                            "msg": f"{mode} {shape!r} with {ctx_expr}: raised {out[1]}: {out[2]}",
+                        p.violation(_exc_sig(mode, out, text), {
+                            "msg": f"{mode} {shape!r} with {ctx_expr[:80]}: raised {out[1]}: {out[2]}",
                             "script": SCRIPT % ((mode, shape, ctx_expr),)})
                         continue
                     got = out[1]
@@ -415,6 +455,8 @@ CONST_ATOMS = [
     ("true.__class__", bool), ("(1).__class__", int), ("''.__class__", str), ("none.__class__", type(None)),
     ("(1.5).__class__", float), ("[].__class__", list),
     ("1", 1), ("'a'", "a"), ("none", None),
+    # constant expressions whose value is a float without a literal spelling
+    ("1e308 * 10", float("inf")), ("-1e308 * 10", float("-inf")), ("1e308 * 10 - 1e308 * 10", float("nan")),
 ]
 CONST_SHAPES_1 = [
     ("%s", lambda a: a),
@@ -473,10 +515,91 @@ def const_shard(arg):
                 if ok and alone and isinstance(want, type):
                     ok = got is want
                 if not ok:
-                    p.violation("C34/const/" + type(want).__name__, {
+                    fam = "const-nonfinite" if "1e308" in expr else "const"
+                    p.violation(f"C34/{fam}/" + type(want).__name__, {
                         "msg": f"{mode} {src!r}: got {got!r} ({type(got).__name__}), expected {want!r} "
                                f"({type(want).__name__})", "script": SCRIPT % ((mode, src, "{}"),)})
         p.sample({"kind": "constant expression", "source": "{{ " + expr + " }}", "expected": repr(want)}, cap=1)
+    return p
+
+
+# ----------------------------------------------------------------------------- block references and filter blocks
+
+BLOCK_TEMPLATES = {
+    "in-place": "{% block b %}{{ x }}{% endblock %}",
+    "self": "{% if false %}{% block b %}{{ x }}{% endblock %}{% endif %}{{ self.b() }}",
+    "base": "{% block b %}{{ x }}{% endblock %}",
+    "child": "{% extends 'base' %}{% block b %}{{ super() }}{% endblock %}",
+    "grandchild": "{% extends 'child' %}{% block b %}{{ super() }}{% endblock %}",
+    "grandchild-skip": "{% extends 'child' %}{% block b %}{{ super.super() }}{% endblock %}",
+    "child-self": "{% extends 'base' %}{% block b %}{% if false %}{% block inner %}{{ x }}{% endblock %}{% endif %}"
+                  "{{ self.inner() }}{% endblock %}",
+}
+BLOCK_ENTRY = ["in-place", "self", "child", "grandchild", "grandchild-skip", "child-self"]
+FILTER_SHAPES = [
+    "{% filter give(K) %}body{% endfilter %}",
+    "{% filter give(K) %}{{ x }}{% endfilter %}",
+    "{% filter upper|give(K) %}body{% endfilter %}",
+    "{% if true %}{% filter give(K) %}{% endfilter %}{% endif %}",
+]
+
+
+def block_shard(arg):
+    kind, items = arg
+    ns = _ns()
+    p = core.Part()
+    if kind == "block":
+        # the block (or the chain of super() calls) is the only output node: the value of {{ x }} comes back itself
+        for item in items:
+            value = eval(item, ns)  # noqa: S307 - fixed menu
+            if isinstance(value, str):
+                continue  # strings go through one literal evaluation per concat level; this family is about non-strings
+            ctx_expr = "{'x': %s}" % item
+            for name in BLOCK_ENTRY:
+                for mode in MODES:
+                    p.evals += 1
+                    out = render(mode, name, {"x": value}, None, BLOCK_TEMPLATES)
+                    script = SCRIPT % ((mode, name, ctx_expr, None, None, BLOCK_TEMPLATES)[:6],)
+                    if out[0] == "exc":
+                        p.sig((mode, "exc", out[1]))
+                        p.violation(f"C34/block/{out[1]}", {
+                            "msg": f"{mode} template {name!r} = {BLOCK_TEMPLATES[name]!r} with x={item}: raised {out[1]}: "
+                                   f"{out[2]}", "script": script.replace("if len(args) > 4:", "if False:")})
+                        continue
+                    p.sig((mode, "block", name, type(value).__name__, out[1] is value))
+                    if out[1] is not value:
+                        p.violation("C34/block/identity", {
+                            "msg": f"{mode} template {name!r} = {BLOCK_TEMPLATES[name]!r} with x={item}: got {out[1]!r} "
+                                   f"({type(out[1]).__name__}), expected the object itself",
+                            "script": script.replace("if len(args) > 4:", "if False:")})
+            p.sample({"kind": "block reference", "templates": BLOCK_ENTRY, "value": item}, cap=1)
+        return p
+    # filter block as the only output node: the filter's result comes back itself
+    for key in items:
+        result = GIVE[key]
+        for shape in FILTER_SHAPES:
+            src = shape.replace("K", repr(key))
+            for mode in MODES:
+                p.evals += 1
+                out = render(mode, src, {"x": 5})
+                script = SCRIPT % ((mode, src, "{'x': 5}"),)
+                if out[0] == "exc":
+                    p.sig((mode, "exc", out[1]))
+                    p.violation(f"C34/filter-block/{out[1]}", {
+                        "msg": f"{mode} {src!r} (give -> {result!r}): raised {out[1]}: {out[2]}", "script": script})
+                    continue
+                got = out[1]
+                p.sig((mode, "filter-block", key, type(got).__name__))
+                if isinstance(result, str):
+                    ok = canon(got) == canon(literal_or_text(result))
+                else:
+                    ok = got is result
+                if not ok:
+                    p.violation("C34/filter-block/" + ("string" if isinstance(result, str) else "identity"), {
+                        "msg": f"{mode} {src!r}: got {got!r} ({type(got).__name__}), expected the filter's result "
+                               f"{result!r} ({type(result).__name__}) itself", "script": script})
+        p.sample({"kind": "filter block", "source": FILTER_SHAPES[0].replace("K", repr(key)), "filter_result": repr(result)},
+                 cap=1)
     return p
 
 
@@ -498,6 +621,14 @@ def run(ctx: core.Ctx):
         "whitespace, newlines and comments are handled as Python does",
         "CALIBRATED: a template without any output node returns None",
         "a single node that is a str subclass (Markup) counts as a string",
+        "block family: a block rendered in place, {{ self.b() }} and one/two levels of {{ super() }} (DictLoader) as the only "
+        "output node return the non-string value of the block's single {{ x }} itself; string values are left out of this "
+        "family because every concat level evaluates the text once more",
+        "filter-block family: a {% filter %} block as the only output node returns the filter's non-string result itself "
+        "(Decimal, Fraction, date, object, list, nan ...); a str result is evaluated like any single string node",
+        "text whose literal evaluation raises TypeError (unhashable dict key / set element) or RecursionError (3000 unary "
+        "minus signs) must come back as the text ('otherwise, the string is returned'), not as an exception",
+        "a constant expression whose value is inf/-inf/nan (1e308 * 10) is a single non-string node like any other",
         "finalize (Environment docstring: 'process the result of a variable expression before it is output') applies to the values "
         "of expression pieces, constants included, never to template data; checked with a plain and a @pass_context "
         "finalize that repr-quote str values, over every sequence of the extended alphabet",
@@ -515,6 +646,7 @@ def run(ctx: core.Ctx):
     ]
     ctx.pmap(single_shard, [("str", c) for c in chunks(STRING_VALUES, 12)] + [("value", c) for c in chunks(VALUE_EXPRS, 8)]
              + [("missing", ["<x not in context>"])])
+    ctx.pmap(block_shard, [("block", c) for c in chunks(VALUE_EXPRS, 8)] + [("filter", c) for c in chunks(sorted(GIVE), 4)])
     n_const = len(list(const_cases()))
     ctx.pmap(const_shard, [(i, min(i + 40, n_const)) for i in range(0, n_const, 40)])
     extlen = maxlen - 1  # the alphabet with the three empty-string constant pieces goes one piece less deep
@@ -531,7 +663,9 @@ def run(ctx: core.Ctx):
     if ctx.counters.get("multi_cases_expected_literal", 0) < 100:
         raise core.HarnessError("piece alphabet did not bite: almost no literal-valued concatenations")
     ctx.cov["bounds"] = {"pieces": PIECES, "max_pieces": maxlen, "empty_string_pieces": EMPTY_PIECES,
-                         "max_pieces_with_empty_string_pieces": extlen, "two_node_shapes": TWO_NODE_SHAPES, "finalize_configurations": [str(f) for f in FINALIZERS], "contexts": CONTEXT_EXPRS, "modes": MODES,
+                         "max_pieces_with_empty_string_pieces": extlen, "two_node_shapes": TWO_NODE_SHAPES, "finalize_configurations": [str(f) for f in FINALIZERS],
+                         "block_templates": BLOCK_TEMPLATES, "filter_block_shapes": FILTER_SHAPES,
+                         "filter_results": sorted(GIVE), "contexts": CONTEXT_EXPRS, "modes": MODES,
                          "single_shapes": SINGLE_SHAPES, "constant_expressions": n_const,
                          "constant_wrappers": CONST_WRAPPERS, "string_values": len(STRING_VALUES),
                          "other_values": len(VALUE_EXPRS)}
